@@ -478,6 +478,11 @@ class SimE(Simulator):
         # UOD variant: extra tags / regex-number commands with drawn units, and lines that use them with units of the same
         # family, of another family, or none (the analyzer and the interpreter must agree on every pair)
         cfg: dict = {"runlog_every": 50, "wellformed": False}
+        if rng.random() < 0.3:
+            # a UOD without a column volume, or without a volume totalizer at all: `Base: CV` / `Base: L` have no provider
+            cfg["totalizer"] = rng.choice(["volume", "none"])
+            k = rng.randint(0, len(method))
+            method = method[:k] + [[f"B{k}t{rng.randint(0, 999)}", rng.choice(["Base: L", "Base: CV", "Base: mL", "Base: s", "Base: min"])]] + method[k:]
         if clean or rng.random() < 0.65:
             fams = list(UNIT_FAMILIES.values())
             xt, xc = [], []
@@ -625,7 +630,8 @@ class SimE(Simulator):
             fs = MemFS()
         world = EngineWorld(res, rec, recovery=cfg.get("recovery", False), archiver=bool(cfg.get("archiver")),
                             data_log_interval=cfg.get("data_log_interval", 5.0), fs=fs,
-                            extra_tags=cfg.get("extra_tags"), extra_cmds=cfg.get("extra_cmds"))
+                            extra_tags=cfg.get("extra_tags"), extra_cmds=cfg.get("extra_cmds"),
+                            totalizer=cfg.get("totalizer", "both"))
         world.fs = fs
         self.last_world = world          # tools/trace.py
         try:
